@@ -114,14 +114,40 @@ def _missing_edge_region(cx, fn, site):
         sides = [e for e in set(edges) if e == site.bb or cfg.dominates(e, site.bb)]
         if len(sides) != 1:
             continue
-        # prefer the closest dominator (largest dominator set)
+        # prefer the closest dominator (largest dominator set); a test of the outcome of a parse_*/consume_* call
+        # (the block / expression parse that came back empty) takes precedence over token peeks nested under it
         depth = len(cfg.dominators().get(b, ()))
-        if best is None or depth > best[0]:
-            best = (depth, sides[0])
+        outcome = _tests_parse_outcome(cx, fn, du, b)
+        key = (1 if outcome else 0, depth)
+        if best is None or key > best[0]:
+            best = (key, sides[0])
     if best is None:
         return None
     edge = best[1]
     return edge, cfg.reachable({edge})
+
+
+def _tests_parse_outcome(cx, fn, du, bb):
+    """does the switch in block bb test the Option/Result produced by a parser method (through `?`)"""
+    t = fn.blocks[bb].term
+    l = op_base(t[1])
+    if l is None:
+        return False
+    d = du.single_def(l)
+    if d is None or d[2] != "assign" or d[3][0] != "discr":
+        return False
+    base = d[3][1][0]
+    root = du.root(base, through_calls=("Try::branch",))
+    if root[0] == "field":
+        root = root[1]
+    if root[0] == "call":
+        c = root[1]
+        tf = cx.F.fns.get(c.resolved)
+        if tf is not None and tf.qual.startswith("koto_parser::Parser::") and \
+                (tf.method.startswith("parse_") or tf.method.startswith("consume_")):
+            rt = tf.crate.tstr(tf.local_ty(0))
+            return "Option<" in rt
+    return False
 
 
 def rule_indent_chain(cx, tier):
